@@ -13,7 +13,7 @@ vars == <<names, defaults, used, comp, hist>>
 
 MacroNames == {"integer", "mynew", "absolute_size"}
 BaseUsed == [m \in MacroNames |-> BaseLit(m)]
-Uses(p) == CASE p = "P1" -> {"integer", "mynew"} [] p = "P2" -> {"integer", "absolute_size"} [] p = "P3" -> {"integer", "mynew"}
+Uses(p) == CASE p = "P1" -> {"integer", "mynew"} [] p = "P1x" -> {"integer"} [] p = "P2" -> {"integer", "absolute_size"} [] p = "P3" -> {"integer", "mynew"}
              [] p = "P4" -> {"integer"} [] p = "B" -> {"integer", "absolute_size"} [] OTHER -> {}
 Update(u, p) == [m \in MacroNames |-> IF Defines(p, m) THEN MacrosOf(p)[m] ELSE u[m]]
 RECURSIVE FoldUpdate(_, _)
@@ -51,12 +51,14 @@ Step(a) == /\ Len(hist) < MaxHist
            /\ hist' = Append(hist, a)
            /\ (Emit => PrintT(<<"HIST", ToJson([h |-> Append(hist, a), s |-> <<names, defaults, used>>])>>))
 
-AddProfile(p)    == p \in Custom /\ p \notin Range(names) /\ Step([op |-> "add", p |-> p]) /\ AlgAdd(p)
-AddProfiles(ps)  == /\ \A i \in 1..Len(ps) : ps[i] \in Custom /\ ps[i] \notin Range(names)
+Free(p) == ~Registered(names, Base(p))
+AddProfile(p)    == p \in Custom /\ Free(p) /\ Step([op |-> "add", p |-> p]) /\ AlgAdd(p)
+AddProfiles(ps)  == /\ \A i \in 1..Len(ps) : ps[i] \in Custom /\ Free(ps[i])
+                    /\ Base(ps[1]) # Base(ps[2])
                     /\ Step([op |-> "addbatch", ps |-> ps]) /\ AlgAddBatch(ps)
 AddBuiltin       == "B" \notin Range(names) /\ Step([op |-> "addbuiltin"]) /\ AlgAddBatch(<<"B">>)
 RemoveProfile(p) == p \in Range(names) /\ p # "B" /\ p # defaults /\ Step([op |-> "remove", p |-> p]) /\ AlgRemove(p)
-RemoveUnknown(p) == p \notin Range(names) /\ Step([op |-> "remove", p |-> p]) /\ UNCHANGED <<used, comp>>
+RemoveUnknown(p) == Free(p) /\ Step([op |-> "remove", p |-> p]) /\ UNCHANGED <<used, comp>>
 RemoveAll        == defaults = "none" /\ Step([op |-> "removeall"]) /\ AlgRemoveAll
 SetDefaults(d)   == (d = "none" \/ d \in Range(names)) /\ Step([op |-> "setdefaults", d |-> d]) /\ UNCHANGED <<used, comp>>
 
@@ -74,7 +76,8 @@ View == <<names, defaults, used, comp>>
 AlgAccepted(id) ==
     IF id \in {"none"} THEN {}
     ELSE IF id = "B.color" THEN (IF Registered(names, "B") THEN {"red"} ELSE {})
-    ELSE (IF Registered(names, Owner(id)) THEN {comp[Owner(id)][MacroOf(id)]} ELSE {})
+    ELSE IF id = "P1.b" /\ "P1x" \in Range(names) THEN {"p1x"}
+    ELSE (IF Registered(names, Owner(id)) THEN {comp[CHOOSE n \in Range(names) : Base(n) = Owner(id)][MacroOf(id)]} ELSE {})
          \cup (IF id = "B.z" /\ Registered(names, "P4") THEN {"p4z"} ELSE {})
 \* C14 on the design: the algorithm's observation is a function of the contents
 HistoryFree == \A id \in ProbeIds : AlgAccepted(id) = F(names, id)
